@@ -84,7 +84,7 @@ def main():
                     ignore=shutil.ignore_patterns('__pycache__'))
     shutil.copy('/verif/known_findings.json', SNAP)
     out = {}
-    with cf.ThreadPoolExecutor(4) as ex:
+    with cf.ThreadPoolExecutor(int(os.environ.get("SWEEP_JOBS", "4"))) as ex:
         for tag, res in ex.map(one, jobs):
             out[tag] = res
             if 'error' in res:
